@@ -107,6 +107,7 @@ WillDeliver ==
   /\ recv' = Upd(recv, <<Ev.c, Ev.p>>, Get(recv, <<Ev.c, Ev.p>>, 0) + 1)
   /\ UNCHANGED <<subs, pubs, live, order, cid, left, w>>
 
+WasAccepted(c) == \E j \in 1..(l - 1) : Trace[j].op = "srv.write" /\ Trace[j].kind = "CONNACK" /\ Trace[j].code = 0 /\ Trace[j].c = c
 Active(s) == s.ack > 0 /\ s.unreq = 0 /\ s.c \in live
 Sequential(ps) == \A i \in 1..(Len(ps) - 1) : pubs[ps[i]].acked > 0 /\ pubs[ps[i]].acked < pubs[ps[i + 1]].sent
 Quiescent ==
@@ -124,6 +125,9 @@ Quiescent ==
   /\ \A c \in Dom(w.will) :
         (c \in w.reg /\ c \in left /\ c \in w.gone /\ c \notin w.disc /\ \A c2 \in Dom(cid) : cid[c2] = cid[c] => c2 = c) =>
           \A s \in subs : (Active(s) /\ s.ack < w.will[c].sent /\ T!Matches(s.f, w.will[c].t)) => Get(recv, <<s.c, w.will[c].p>>, 0) >= 1
+  \* Established (C12): a client that sent CONNECT and stayed was accepted - whatever happened to earlier sessions of its client
+  \* identifier meanwhile (no credentials are configured in these scenarios)
+  /\ \A c \in Dom(cid) : c \notin left => WasAccepted(c)
   /\ UNCHANGED <<subs, pubs, recv, live, order, cid, left, w>>
 
 \* C06 at the writer: in these scenarios every client acknowledges at once and sweeps precede the probe, so no packet
@@ -132,7 +136,6 @@ Quiescent ==
 OfLive(sid) == \E c \in live : sid = "s" \o ToString(c)
 \* C12: of the sessions accepted for one client identifier, one is left when everything is quiet (unless every client that
 \* used it hung up itself), and that is what the identifier resolves to
-WasAccepted(c) == \E j \in 1..(l - 1) : Trace[j].op = "srv.write" /\ Trace[j].kind = "CONNACK" /\ Trace[j].code = 0 /\ Trace[j].c = c
 Users(x) == {c \in Dom(cid) : cid[c] = x /\ WasAccepted(c)}
 OneSessionPerClientId ==
   \A x \in {cid[c] : c \in Dom(cid)} :
